@@ -37,6 +37,40 @@ def _work(task):
             "nontrivial": sum(1 for r in recs if any(len(c) > 1 for c in r["scc"]) or any(x[2] for x in r["reach"]))}
 
 
+ICFG = "INIT Init\nNEXT Next\nINVARIANT Holds\nINVARIANT Terminal\nINVARIANT Bounded\nCHECK_DEADLOCK FALSE\n"
+
+
+def impl_layer(rep, quick, paths, jobs):
+    """QueryImpl.tla: (E1) the transcriptions of Tarjan / DFS / _imm_doms equal the definitions on every graph of Q(n, d) enumerated by TLC
+    itself, and the dominator worklist reaches the path-based dominators in EVERY order in which a set can be pushed, never tripping the
+    monotonicity assertion; (conformance) the recorded emission order of the real compute_scc equals the transcription's. Disagreements are
+    DESIGN / DRIFT lines, never verdicts."""
+    out = {"module": "QueryImpl.tla", "fun": {}, "doms": {}, "scc_order_conformance": {}}
+    doms = [(1, 2), (2, 2), (3, 2)] if quick else [(1, 2), (2, 3), (3, 2), (4, 2)]
+    for mode in ("fun", "doms"):
+        for n, dd in doms:
+            r = tlc.run("QueryImpl", ICFG, {"MODE": mode, "QN": str(n), "QD": str(dd), "CASES": ""}, workers=jobs, timeout=14000, heap="6g")
+            if r.error:
+                raise tlc.MachineryError("QueryImpl %s: %s" % (mode, r.error[:2000]))
+            out[mode]["Q(%d,%d)" % (n, dd)] = {"states": r.distinct, "design_failures": len(r.violations)}
+            rep.coverage["states_impl"] = rep.coverage.get("states_impl", 0) + r.distinct
+            for v in r.violations[:5]:
+                st = tlc.parse_state(v["states"][-1])
+                print("DESIGN: property=C13 QueryImpl.tla (%s) violates %s on graph %s" % (mode, v["inv"], st.get("g")))
+                rep.add_drift({"design_level": True, "mode": mode, "inv": v["inv"], "g": st.get("g")})
+    results = tlc.run_shards("QueryImpl", "INIT Init\nNEXT Next\nINVARIANT Holds\nCHECK_DEADLOCK FALSE\n",
+                             [{"MODE": "trace", "QN": "0", "QD": "0", "CASES": p} for p in paths], jobs=jobs, workers=1, timeout=6000, heap="3g")
+    tlc.require_ok(results, "QueryImpl (trace)")
+    n = bad = 0
+    for r in results:
+        n += r.distinct
+        bad += len(r.violations)
+        for v in r.violations[:2]:
+            rep.add_drift({"conformance": "compute_scc emission order", "tid": tlc.parse_state(v["states"][0]).get("tid")})
+    out["scc_order_conformance"] = {"graphs": n, "drift": bad}
+    return out
+
+
 def main(argv):
     from .. import queries
 
@@ -82,6 +116,7 @@ def main(argv):
                     envs.append({"CASES": o["path"], "EXHN": "0", "EXHD": "0", "EXH": ""})
         results = tlc.run_shards("Queries", CFG, envs, jobs=args.jobs, workers=1, timeout=6000, heap="3g")
         tlc.require_ok(results, "Queries")
+        impl = {} if args.replay else impl_layer(rep, quick, [o["path"] for o in outs], args.jobs)
         states = gen = 0
         total = 0
         for o, tr_ in zip(outs, results):
@@ -111,6 +146,7 @@ def main(argv):
                 "exiting/exits for every subset (<=64 sampled beyond that), is_reachable_dfs for every pair, _doms, _post_doms, _imm_doms; "
                 "non-trivial = the graph has a multi-node SCC or at least one reachable pair",
         "exhaustive": True, "exhaustive_scope": "Q(1,3), Q(2,3), Q(3,2)" + ("" if quick else ", Q(3,3)"),
+        "impl_layer": impl,
         "samples": [s for o in outs[:3] for s in o["samples"][:1]] + [s for o in outs[-1:] for s in o["samples"][:1]],
     })
     return rep.finish()
